@@ -35,6 +35,7 @@ type c19Run struct {
 	reload  chan reloadEvent
 	timers  []chan time.Time
 	fired   int // number of timers fired (timers[fired:] are unfired)
+	firedIdx map[int]bool // indexes of the timers the driver fired
 	signals []string // file content at each reload signal
 	results []bool
 	script  []bool // scripted results of upcoming signals (consumed); afterwards ok
@@ -173,6 +174,10 @@ func c19Exec(res *verifrt.Result, c c19Case) {
 			r.script = []bool{tok == "fire-ok"}
 			r.mu.Lock()
 			ch := r.timers[len(r.timers)-1]
+			if r.firedIdx == nil {
+				r.firedIdx = map[int]bool{}
+			}
+			r.firedIdx[len(r.timers)-1] = true
 			r.fired = len(r.timers) // before the expiry is delivered: the goroutine may arm a new timer at once
 			r.mu.Unlock()
 			ch <- time.Time{}
@@ -230,6 +235,41 @@ func c19Exec(res *verifrt.Result, c c19Case) {
 	}
 	if needApply {
 		viol("C19 internal: model pending after closure", "")
+	}
+	// every timer channel that was ever handed out and not fired above: an abandoned one has no listener (nothing happens),
+	// a forgotten one that is still listened to must not bring an older configuration back
+	r.mu.Lock()
+	var stale []chan time.Time
+	for i, ch := range r.timers {
+		if !r.firedIdx[i] {
+			stale = append(stale, ch)
+		}
+	}
+	r.mu.Unlock()
+	before := len(r.signals)
+	if os.Getenv("VERIF_TRACE") != "" {
+		fmt.Fprintf(os.Stderr, "closure: %d timers handed out, %d never fired by the driver, %d reload attempts so far\n", len(r.timers), len(stale), before)
+	}
+	for _, ch := range stale {
+		select {
+		case ch <- time.Time{}:
+		default:
+		}
+		// if somebody still listens the value is taken at once; an abandoned channel keeps it (bounded wait: on a tree
+		// where nobody listens the wait changes nothing)
+		for i := 0; i < 200 && len(ch) > 0; i++ {
+			time.Sleep(100 * time.Microsecond)
+		}
+		if !park("closure-stale-timer") {
+			return
+		}
+	}
+	if len(r.signals) != before {
+		last := r.signals[len(r.signals)-1]
+		if latest != nil && last != expectText(latest) {
+			viol("C19 reload attempt does not carry the latest submitted configuration kind=older-configuration-from-a-forgotten-timer", fmt.Sprintf("attempted %q, latest submitted %s", firstLine(last), latest.Hostname))
+			return
+		}
 	}
 	if latest != nil {
 		last := ""
